@@ -43,10 +43,34 @@ func (c *Ctx) Fork(n, par int) bool {
 	if c.Replaying() {
 		return false
 	}
+	exe, _ := os.Executable()
+	c.forkExe(exe, n, par)
+	return true
+}
+
+// SchedBin is the path of the check's second, instrumented binary (checks/cNN/sched), built by
+// vcheck when that directory exists; "" otherwise.
+func SchedBin() string { return os.Getenv("VERIF_SCHED_BIN") }
+
+// ForkSched runs the n work units of the check's instrumented companion binary (E-SCHED part of a
+// check whose main part runs on the un-instrumented code) and merges what they covered. It is a
+// no-op in replay mode and in shard workers.
+func (c *Ctx) ForkSched(n, par int) {
+	if c.Shard >= 0 || c.Replaying() {
+		return
+	}
+	exe := SchedBin()
+	if exe == "" {
+		fmt.Fprintln(os.Stderr, "kit: VERIF_SCHED_BIN not set (run through vcheck)")
+		os.Exit(2)
+	}
+	c.forkExe(exe, n, par)
+}
+
+func (c *Ctx) forkExe(exe string, n, par int) {
 	if par < 1 {
 		par = 1
 	}
-	exe, _ := os.Executable()
 	type res struct {
 		st   *shardState
 		err  string
@@ -183,7 +207,6 @@ func (c *Ctx) Fork(n, par int) bool {
 			}
 		}
 	}
-	return true
 }
 
 func (c *Ctx) shardDump() shardState {
